@@ -81,6 +81,8 @@ def spec (caseLine implLine : String) : String :=
   match parseCase caseLine with
   | none => "BAD_CASE"
   | some c =>
+    if implLine.startsWith "HANG" then "FAIL hang the dispatch of a batch did not return" else
+    if implLine.startsWith "PANIC" || implLine.startsWith "CRASH" then "FAIL panic " ++ (implLine.take 160).toString else
     let halves := implLine.splitOn " || "
     let pieces := ((halves.headD "").splitOn " | ")
     let dpart := halves.getD 1 ""
@@ -107,6 +109,7 @@ def spec (caseLine implLine : String) : String :=
         let allowed := pick "c" c.m.counters ++ pick "t" c.m.timers ++ pick "g" c.m.gauges ++ pick "s" c.m.sets
         let got := if ws[w]! == "-" then [] else ws[w]!.splitOn " ; "
         got.all (fun e => allowed.contains e) && got.eraseDups.length == got.length)
+    if halves.any (fun h => h.startsWith "K ") then "FAIL key-not-a-function-of-identity the two ways of computing a series key from tags and source disagree, so one series can be routed to two shards" else
     if !dispatchOk then "FAIL dispatch a worker was handed a series that is not routed to it (or missed one)" else
     if !cancelledOk then "FAIL dispatch-cancelled while the dispatch was being cancelled a worker was handed a series that is not routed to it (or one twice)" else
     if pieces.length ≠ c.n then s!"FAIL piece-count {pieces.length} != {c.n}" else
